@@ -129,12 +129,26 @@ Section C03.
     | [] => true
     | p :: ps' => (if is_varpos p then forallb (fun r => negb (takes_positional r)) ps' else true) && star_last ps'
     end.
-  Definition sig_ok (f : fn) : bool := sig_base f && star_last (f_params f).
+  Definition sig_full (f : fn) : bool := sig_base f && star_last (f_params f).
 
-  Lemma sig_ok_base : forall f, sig_ok f = true -> sig_base f = true.
-  Proof. intros f H. unfold sig_ok in H. now apply andb_true_iff in H as [H _]. Qed.
+  (* what is stated in the theorems: the signature is one CPython can build ... *)
+  Definition sig_ok (f : fn) : bool :=
+    one_star (f_params f) && distinct (map p_name (full_params f))
+    && match f_bound f with Some _ => f_recv f | None => true end
+    && star_last (f_params f).
+  (* ... and, separately and by name: no parameter other than the receiver is called `self` (FunctionCall drops every parameter
+     of that NAME from the parameters it checks: refuted without it, C03_parameter_named_self_refuted) *)
+  Definition no_self_param (f : fn) : bool := forallb (fun p => negb (Nat.eqb (p_name p) self_name)) (declared f).
+  Lemma sig_full_of : forall f, sig_ok f = true -> no_self_param f = true -> sig_full f = true.
+  Proof.
+    intros f H Hn. unfold sig_ok in H. apply andb_true_iff in H as [H Hs]. apply andb_true_iff in H as [H Hb]. apply andb_true_iff in H as [Ho Hd].
+    unfold sig_full, sig_base. unfold no_self_param in Hn. now rewrite Ho, Hd, Hn, Hb, Hs.
+  Qed.
 
-  Lemma declared_incl : forall f p, sig_ok f = true -> In p (declared f) -> In p (f_params f) /\ In p (full_params f).
+  Lemma sig_ok_base : forall f, sig_full f = true -> sig_base f = true.
+  Proof. intros f H. unfold sig_full in H. now apply andb_true_iff in H as [H _]. Qed.
+
+  Lemma declared_incl : forall f p, sig_full f = true -> In p (declared f) -> In p (f_params f) /\ In p (full_params f).
   Proof. intros f p H. apply declared_incl_base. now apply sig_ok_base. Qed.
 
   Lemma find_param_spec : forall n ps p, find_param n ps = Some p -> In p ps /\ p_name p = n.
